@@ -62,6 +62,8 @@ def check_views(case, ctx):
         if op == "fork":
             # continue on a deep copy; the object left behind keeps its own model
             others.append((obj, [list(p) for p in P], list(W)))
+            if i % 2:
+                _ = obj.ctrlpts, obj.weights          # the views of the source were looked at before the copy is taken
             obj = copy.deepcopy(obj)
             continue
         if op == "switch":
@@ -70,11 +72,20 @@ def check_views(case, ctx):
                 obj, P, W = others.pop(0)
             continue
         if op == "set_P":
-            obj.ctrlpts = [list(p) for p in s["P"]]
+            if others or int(s["P"][0][0] * 8) % 3 == 0:
+                # read / edit the points in place / write back: the getter hands out lists, the user changes coordinates and assigns
+                Pl = obj.ctrlpts
+                for j, q in enumerate(s["P"]):
+                    for c, x in enumerate(q):
+                        Pl[j][c] = x
+                obj.ctrlpts = Pl
+                ctx.label("ctrlpts-edited-in-place")
+            else:
+                obj.ctrlpts = [list(p) for p in s["P"]]
             P = [list(p) for p in s["P"]]
             kinds.add("P")
         elif op == "set_W":
-            if s["W"][0] in (0.25, 0.5, 1.5):
+            if others or s["W"][0] in (0.25, 0.5, 1.5):
                 # the read / edit in place / write back idiom: the getter hands out a list, the user changes it and assigns it
                 w = obj.weights
                 for j, x in enumerate(s["W"]):
